@@ -155,6 +155,19 @@ def _roundtrip_contract(features):
                     same = all(_np.array_equal(getattr(r1, a), getattr(r3, a), equal_nan=True) for a in ('x', 'y', 'z', 'L', 'M', 'N', 'opd', 'i'))
                     c.ensure('C19.roundtrip.identical_traces', same)
                 c.ensure('C19.roundtrip.identical_paraxial', float(lens.paraxial.f2()) == float(lens3.paraxial.f2()))
+                # the file functions of the library (scratch file, removed at once)
+                import tempfile
+                import os as _os
+                from optiland.fileio.optiland_handler import save_optiland_file, load_optiland_file
+                fd, fp = tempfile.mkstemp(suffix='.json')
+                _os.close(fd)
+                try:
+                    save_optiland_file(lens, fp)
+                    lens4 = load_optiland_file(fp)
+                finally:
+                    _os.remove(fp)
+                compare(c, 'C19.roundtrip.same_prescription_through_a_saved_file', lens, lens4)
+                c.ensure('C19.roundtrip.saved_file_reloads_to_the_same_dictionary', dict_equal(lens4.to_dict(), json.loads(txt)))
             except TypeError as ex:
                 c.ensure('C19.serialisable.json_dump_succeeds', False, note=str(ex))
     return rt
